@@ -280,7 +280,7 @@ class MultiName(object):
                 allnames.extend(n.alt_names)
             else:
                 allnames.append(n)
-        self.alt_names = list(set(allnames))
+        self.alt_names = sorted(set(allnames), key=lambda n: n.location)
         self.name = self.alt_names[0].name
 
     def __repr__(self):  # type: () -> str
